@@ -1184,6 +1184,12 @@ def check_C08(ctx):
         elif agree and 'Overflow' in b2.impl[ic]:
             rep.stats['float_range_effects'] += 1
             continue
+        elif agree and oc[0] == 'DOMERR':
+            # the rewrite is the model's, proved (rule_sound / normalize_sound, good trace) to keep every point of the
+            # REAL domain: the input is defined here only because of rounding (x - e^(ln x) is 1e-16 instead of 0 under
+            # a root or a logarithm; sin of an ill-conditioned huge argument changes sign). Not a violation of the property
+            rep.stats['defined_by_rounding_only'] += 1
+            continue
         else:
             kf = None
         rep.oracle_fail('%s: input is %s but result is %s at the same point' % (lab, b2.impl[ia], b2.impl[ic]),
